@@ -131,7 +131,28 @@ func typeShort(t types.Type) string {
 	return smtIdent(s)
 }
 
+func isVcSeq(t types.Type) (types.Type, bool) {
+	n, ok := t.(*types.Named)
+	if !ok {
+		return nil, false
+	}
+	name := n.Obj().Name()
+	if o := n.Origin(); o != nil {
+		name = o.Obj().Name()
+	}
+	if name != "vcSeq" {
+		return nil, false
+	}
+	if sl, ok := n.Underlying().(*types.Slice); ok {
+		return sl.Elem(), true
+	}
+	return nil, false
+}
+
 func (ti *TypeInfo) sortOf(t types.Type) string {
+	if et, ok := isVcSeq(t); ok {
+		return arraySort(SInt, ti.sortOf(et))
+	}
 	switch u := t.Underlying().(type) {
 	case *types.Basic:
 		switch {
